@@ -51,6 +51,7 @@ let len s = List.length (bytes_of_hex s)
 let model fs = match fs with
   | ["fd"; buf; d] -> show_bool (finddomain (bytes_of_hex buf) (bytes_of_hex d))
   | ["ff"; buf; d] -> if buf = "-" then "E E0" else show_bool (finddomain (bytes_of_hex buf) (bytes_of_hex d))
+  | ["ad"; d; e] -> if matchdomain (bytes_of_hex d) (bytes_of_hex e) then "R 1" else "R 0"
   | ["a4"; ip; net; m] when len ip = 16 && len net = 4 -> show_bool (ip4_matchnet (bytes_of_hex ip) (bytes_of_hex net) (byte1 m))
   | ["a6"; ip; net; m] when len ip = 16 && len net = 16 -> show_bool (ip6_matchnet (bytes_of_hex ip) (bytes_of_hex net) (byte1 m))
   | ["b4"; ip; buf] when len ip = 16 -> show_z (check_ip4 (bytes_of_hex ip) (bytes_of_hex buf))
@@ -71,6 +72,7 @@ let verdict want obs = if want = obs then "ok" else "bad"
 let spec fs obs = if model fs = "BADCASE" then "pre" else match fs with
   | ["fd"; buf; d] -> verdict (expect_bool (fd_spec (bytes_of_hex buf) (cstr (bytes_of_hex d)))) obs
   | ["ff"; buf; d] -> if buf = "-" then "pre" else verdict (expect_bool (fd_spec (bytes_of_hex buf) (cstr (bytes_of_hex d)))) obs
+  | ["ad"; d; e] -> verdict (expect_bool (expr_matchb (cstr (bytes_of_hex d)) (cstr (bytes_of_hex e)))) obs
   | ["a4"; ip; net; m] ->
       if int_of_n (byte1 m) > 32 then "pre"
       else verdict (expect_bool (in_net4b (bytes_of_hex ip) (bytes_of_hex net) (byte1 m))) obs
